@@ -274,6 +274,8 @@ def execute(case, ctx):
             exc = e
         exp = op['expect']
         ctx.event(step, 'list_names', got, type(exc).__name__ if exc else None)
+        lx = getattr(parser, 'lex', None)
+        ctx.state(canon.digest([getattr(lx, 'lexpos', 0), getattr(lx, 'paren_count', 0), len(got), bool(exc)]))
         what = 'step %d list_names(%r)%s' % (step, src[:200], ' consume=%s' % n if n is not None else '')
         if exc is not None and not isinstance(exc, Exception):
             ctx.report('non_exception_escaped', '%s: %r' % (what, exc), {'kind': 'non_exception_escaped'})
